@@ -250,4 +250,105 @@ theorem task_ids_unique (st nt : Nat) (ops : List Op) : Distinct (run (init st n
 example : upsert [⟨0, 2, 0⟩, ⟨1, 0, 0⟩] ⟨0, 1, 4⟩ = none ∧
     upsert [⟨0, 2, 0⟩, ⟨1, 0, 0⟩] ⟨0, 2, 4⟩ = some ([⟨0, 3, 4⟩, ⟨1, 0, 0⟩], 3) := by decide
 
+/-! ## torn reads: a read call is several SQL statements
+
+  `srun v (sinit st nt) ops` ranges over every interleaving in which a read call is split into its statements
+  (`readRow`, `readTasks`, `readEnd`) with any atomic ops of any clients — complete committed writes included —
+  between them.  `Variant.sameStatement` is the code: `version` arrives in the same row as status / context / outputs.
+-/
+
+open Stab.Gen.StoreSql in
+/-- the read path as generated from the source: in every function that builds the stage objects handed to
+    `store_stage` nothing assigns `<object>.version` after construction, and `row_to_stage` takes `version` from the
+    very row that supplies status / context / outputs — i.e. the code is `Variant.sameStatement` -/
+theorem gen_read_version_same_statement :
+    readPathVersionAssignments = [] ∧ readPathVersionSelects = [] ∧
+    rowToStageVersionFromRow = true ∧ rowToStageContentFromRow = true := by decide
+
+/-- **No lost update with split reads.**  Because the version is read in the SAME statement as the fields it guards,
+    after ANY interleaving of read statements, modifications, writes, retries and outside task writers the durable
+    content is still the fold of the successful modifications in commit order. -/
+theorem split_read_no_lost_update (st nt : Nat) (ops : List SOp) :
+    (srun .sameStatement (sinit st nt) ops).base.db.content =
+      fold (init st nt).db.content (srun .sameStatement (sinit st nt) ops).base.log :=
+  (sinv_run (sinv_init st nt) (by simp [Folded, fold, init, sinit]) ops).2
+
+/-- **A write after a (possibly torn) read fails its CAS or loses nothing.**  In any state reached with split reads,
+    a `store_stage` (either variant, any expected phase) of any client either raises ConcurrencyError and changes
+    nothing, or succeeds and then the new content is the CURRENT durable content — whatever the other writers
+    committed between the statements of the read or after it — with exactly the client's own modifications applied
+    on top, the version advances by exactly one, and those modifications enter the log once. -/
+theorem split_read_write_fails_or_keeps (st nt : Nat) (ops : List SOp) (c : Nat) (txn : Bool) (p : Option Nat) :
+    let s := (srun .sameStatement (sinit st nt) ops).base
+    ((writeOp s c txn p).2 ≠ .ok ∧ (writeOp s c txn p).1 = s) ∨
+    (∃ o, getObj s c = some o ∧ (writeOp s c txn p).2 = .ok ∧
+      (writeOp s c txn p).1.db.content = fold s.db.content o.pend ∧
+      (writeOp s c txn p).1.db.version = s.db.version + 1 ∧
+      (writeOp s c txn p).1.log = s.log ++ o.pend) := by
+  intro s
+  by_cases ok : (writeOp s c txn p).2 = .ok
+  · right
+    obtain ⟨o, ho, hv, hc, hl⟩ := writeOp_ok_content ok
+    obtain ⟨o', ho', _, hv1, _⟩ := writeOp_ok_spec ok
+    have hi := (sinv_run (c0 := (init st nt).db.content) (sinv_init st nt)
+      (by simp [Folded, fold, init, sinit]) ops).1.inv
+    have hm := getObj_mem ho
+    refine ⟨o, ho, ok, ?_, hv1, hl⟩
+    rw [hc, hi.cur (c, o) hm, hi.fresh (c, o) hm hv.symm]
+  · left
+    exact ⟨ok, failed_write_changes_nothing s c txn p ok⟩
+
+/-- an object whose read was torn (a writer committed after its `readRow`) is behind the row, so its write conflicts -/
+theorem torn_object_is_refused (st nt : Nat) (ops : List SOp) (c : Nat) (o : Obj) (txn : Bool) (p : Option Nat)
+    (h : getObj (srun .sameStatement (sinit st nt) ops).base c = some o)
+    (torn : o.base ≠ (srun .sameStatement (sinit st nt) ops).base.db.content) :
+    writeOp (srun .sameStatement (sinit st nt) ops).base c txn p =
+      ((srun .sameStatement (sinit st nt) ops).base, .conflict) := by
+  have hi := (sinv_run (c0 := (init st nt).db.content) (sinv_init st nt)
+    (by simp [Folded, fold, init, sinit]) ops).1.inv
+  have hm := getObj_mem h
+  have hne : ((srun .sameStatement (sinit st nt) ops).base.db.version == o.version) = false := by
+    simp only [beq_eq_false_iff_ne, ne_eq]
+    intro e
+    exact torn (hi.fresh (c, o) hm e.symm)
+  generalize (srun .sameStatement (sinit st nt) ops).base = s at h hne ⊢
+  unfold writeOp
+  simp [h, hne]
+
+/-- the torn-read schedule: client 0's read is split; between its row statement and the rest client 1 reads, sets the
+    stage status to 3 and appends entry 7, and commits (transactional path); client 0 then appends entry 8 to what it
+    read and writes (auto-commit) -/
+def tornSchedule : List SOp :=
+  [.readRow 0,
+   .op (.read 1), .op (.modify 1 { setStatus := some 3, entry := 7, taskSt := none, addTask := false }), .op (.write 1 true none),
+   .readTasks 0, .readVer 0, .readEnd 0,
+   .op (.modify 0 { setStatus := none, entry := 8, taskSt := none, addTask := false }), .op (.write 0 false none)]
+
+/-- **The variant that re-reads the version in a later statement loses an update.**  On `tornSchedule` client 0's
+    object carries client 1's NEW version with the OLD status / payload; its write passes the CAS: both writes
+    report success (`commits`), both modifications are in the log, yet the row holds status 1 and payload [8] —
+    client 1's committed status 3 and entry 7 are silently reverted. -/
+theorem reread_version_loses_update :
+    (sstep .rereadVersion (srun .rereadVersion (sinit 1 1) (tornSchedule.take 8)) (.op (.write 0 false none))).2 = .ok ∧
+    (srun .rereadVersion (sinit 1 1) tornSchedule).base.commits = [(1, 0), (0, 1)] ∧
+    (srun .rereadVersion (sinit 1 1) tornSchedule).base.log.map (·.entry) = [7, 8] ∧
+    (srun .rereadVersion (sinit 1 1) tornSchedule).base.db.content = { status := 1, payload := [8] } ∧
+    (srun .rereadVersion (sinit 1 1) tornSchedule).base.db.content ≠
+      fold (init 1 1).db.content (srun .rereadVersion (sinit 1 1) tornSchedule).base.log := by decide
+
+-- the same schedule in the code's variant: the torn object keeps version 0, its write is refused, nothing is lost;
+-- and (non-vacuity of `split_read_write_fails_or_keeps`, success branch) the retry then lands both changes
+example :
+    (sstep .sameStatement (srun .sameStatement (sinit 1 1) (tornSchedule.take 8)) (.op (.write 0 false none))).2 = .conflict ∧
+    (srun .sameStatement (sinit 1 1) tornSchedule).base.db.content = { status := 3, payload := [7] } ∧
+    (srun .sameStatement (sinit 1 1) (tornSchedule ++ [.op (.retry 0 false none)])).base.db.content
+      = { status := 3, payload := [7, 8] } := by decide
+-- a split read with the writer entirely BEFORE the row statement hands out the new version with the new content
+example :
+    let ops : List SOp := [.op (.read 1), .op (.modify 1 { setStatus := none, entry := 7, taskSt := some (0, 4), addTask := false }),
+      .op (.write 1 true none), .readRow 0, .readTasks 0, .readEnd 0,
+      .op (.modify 0 { setStatus := none, entry := 8, taskSt := none, addTask := false }), .op (.write 0 true (some 1))]
+    (srun .sameStatement (sinit 1 1) ops).base.db = { version := 2, content := { status := 1, payload := [7, 8] }, tasks := [⟨0, 2, 4⟩] } := by
+  decide
+
 end Stab.Props.C07
